@@ -72,6 +72,23 @@
    it is blocked or finished) and [EFs t] (the environment replaces the file
    tree).
 
+   A load is a LONG operation: compileDir calls Engine.FuncProvider once per
+   template file it is about to compile, and a caller-supplied FuncProvider can
+   take any time (the harness parks the loading goroutine there).  The machine
+   has a third kind of event for this, [ECompile i]: the call i that is inside
+   a load (pc PLocked) advances to the next FuncProvider call, i.e. "is now
+   compiling file prog+1"; when no file is left the event finishes the load
+   like [EStep i].  [prog] counts the FuncProvider calls the current load has
+   made; [load_calls] says how many it makes in all: one per template file the
+   filter selects, in the order of the walk (= the order of [tnames]), up to
+   and including the first file that does not compile.  Nothing but [prog]
+   changes in such a step: the lock stays held, the flag stays set, the
+   template set is replaced only at the end (Proofs: compile_erase - every
+   schedule with compile steps reaches the state of a schedule without them).
+   The model's load reads the tree at the instant it finishes: a file edit
+   that arrives between the first and the last file read of one load is NOT
+   modelled (the judge declines such schedules).
+
    S.  [tnames]: the set of (template name, file) pairs of a tree: every file
    whose name ends in ".ast.json", under its directory path joined with the
    file name without the suffix. *)
@@ -178,6 +195,45 @@ Definition merge_old (flt : bytes) (old : option tmap) (new : tmap) : tmap :=
   | None => new
   end.
 
+(* ---------------------------------------------------------------- S: names of a tree *)
+
+Fixpoint tnames_node (dirname : bytes) (n : node) {struct n} : list (bytes * fkind) :=
+  match n with
+  | File nm k => if has_suffix nm then [(pjoin dirname (strip_suffix nm), k)] else []
+  | Dir nm ch =>
+    (fix go (ns : list node) : list (bytes * fkind) :=
+       match ns with
+       | [] => []
+       | x :: t => tnames_node (pjoin dirname nm) x ++ go t
+       end) ch
+  end.
+
+Fixpoint tnames_nodes (dirname : bytes) (ns : list node) : list (bytes * fkind) :=
+  match ns with
+  | [] => []
+  | x :: t => tnames_node dirname x ++ tnames_nodes dirname t
+  end.
+
+Definition tnames (t : fstree) : list (bytes * fkind) :=
+  match t with None => [] | Some ns => tnames_nodes [] ns end.
+
+(* the FuncProvider calls of one load: one per selected template file in the order of the walk
+   (depth first, Readdir order = the order of [tnames]), the first failing file being the last *)
+Fixpoint calls_upto (debug : bool) (flt : bytes) (names : list (bytes * fkind)) : nat :=
+  match names with
+  | [] => 0
+  | nk :: r =>
+    if prefixb flt (fst nk)
+    then match compile_file debug (snd nk) with
+         | COk _ => S (calls_upto debug flt r)
+         | _ => 1
+         end
+    else calls_upto debug flt r
+  end.
+
+Definition load_calls (debug : bool) (flt : bytes) (t : fstree) : nat :=
+  calls_upto debug flt (tnames t).
+
 (* ---------------------------------------------------------------- the machine *)
 
 Inductive op := ORender (n : bytes) | OLoad (f : bytes).
@@ -203,16 +259,20 @@ Record st := mkst {
   tpls   : option tmap;     (* e.templates, None = nil map *)
   wlock  : option nat;      (* the thread holding e.Lock() *)
   pcs    : nat -> pc;
+  prog   : nat;             (* FuncProvider calls made by the load in progress *)
 }.
 
 Definition upd (f : nat -> pc) (i : nat) (p : pc) : nat -> pc :=
   fun j => if Nat.eqb j i then p else f j.
 
 Definition set_pc (s : st) (i : nat) (p : pc) : st :=
-  mkst (fs s) (loaded s) (tpls s) (wlock s) (upd (pcs s) i p).
+  mkst (fs s) (loaded s) (tpls s) (wlock s) (upd (pcs s) i p) (prog s).
 
 Definition set_fs (s : st) (t : fstree) : st :=
-  mkst t (loaded s) (tpls s) (wlock s) (pcs s).
+  mkst t (loaded s) (tpls s) (wlock s) (pcs s) (prog s).
+
+Definition set_prog (s : st) (k : nat) : st :=
+  mkst (fs s) (loaded s) (tpls s) (wlock s) (pcs s) k.
 
 Definition lock_free (s : st) : bool := match wlock s with None => true | Some _ => false end.
 
@@ -232,7 +292,7 @@ Definition lookup_result (n : bytes) (t : option tmap) : result :=
 Definition enter_load (s : st) (i : nat) (f : bytes) : st :=
   if loaded s && is_empty f
   then set_pc s i (PDone RAgain)
-  else mkst (fs s) true (tpls s) (Some i) (upd (pcs s) i PLocked).
+  else mkst (fs s) true (tpls s) (Some i) (upd (pcs s) i PLocked) 0.
 
 (* from "load:locked" to the Unlock *)
 Definition finish_load (debug : bool) (ops : nat -> op) (s : st) (i : nat) : st :=
@@ -240,9 +300,9 @@ Definition finish_load (debug : bool) (ops : nat -> op) (s : st) (i : nat) : st 
   match compile_dir debug f (fs s) with
   | COk m =>
     mkst (fs s) (loaded s) (Some (merge_old f (tpls s) m)) None
-         (upd (pcs s) i (match ops i with ORender _ => PAfterLoad | OLoad _ => PDone RLoaded end))
-  | CErr => mkst (fs s) false (tpls s) None (upd (pcs s) i (PDone RLoadErr))
-  | CPanic => mkst (fs s) false (tpls s) None (upd (pcs s) i (PDone RLoadPanic))
+         (upd (pcs s) i (match ops i with ORender _ => PAfterLoad | OLoad _ => PDone RLoaded end)) 0
+  | CErr => mkst (fs s) false (tpls s) None (upd (pcs s) i (PDone RLoadErr)) 0
+  | CPanic => mkst (fs s) false (tpls s) None (upd (pcs s) i (PDone RLoadPanic)) 0
   end.
 
 Definition step (debug : bool) (ops : nat -> op) (s : st) (i : nat) : option st :=
@@ -270,18 +330,30 @@ Definition step (debug : bool) (ops : nat -> op) (s : st) (i : nat) : option st 
   | PDone _ => None
   end.
 
-Inductive ev := EStep (i : nat) | EFs (t : fstree).
+Inductive ev := EStep (i : nat) | EFs (t : fstree) | ECompile (i : nat).
+
+(* the call inside a load goes on to its next FuncProvider call (compiles the next file);
+   after the last one the load finishes *)
+Definition compile_ev (debug : bool) (ops : nat -> op) (s : st) (i : nat) : st :=
+  match pcs s i with
+  | PLocked =>
+    if prog s <? load_calls debug (filter_of debug (ops i)) (fs s)
+    then set_prog s (S (prog s))
+    else finish_load debug ops s i
+  | _ => s
+  end.
 
 Definition apply_ev (debug : bool) (ops : nat -> op) (s : st) (e : ev) : st :=
   match e with
   | EStep i => match step debug ops s i with Some s' => s' | None => s end
   | EFs t => set_fs s t
+  | ECompile i => compile_ev debug ops s i
   end.
 
 Definition run (debug : bool) (ops : nat -> op) (s : st) (evs : list ev) : st :=
   fold_left (apply_ev debug ops) evs s.
 
-Definition init (t : fstree) : st := mkst t false None None (fun _ => PStart).
+Definition init (t : fstree) : st := mkst t false None None (fun _ => PStart) 0.
 
 Definition reach (debug : bool) (ops : nat -> op) (t : fstree) (evs : list ev) : st :=
   run debug ops (init t) evs.
@@ -294,33 +366,20 @@ Fixpoint eff_steps (debug : bool) (ops : nat -> op) (s : st) (evs : list ev) (i 
     (match e with
      | EStep j => if Nat.eqb j i then (match step debug ops s j with Some _ => 1 | None => 0 end) else 0
      | EFs _ => 0
+     | ECompile j => if Nat.eqb j i then (match pcs s j with PLocked => 1 | _ => 0 end) else 0
      end) + eff_steps debug ops (apply_ev debug ops s e) t i
   end.
 
 Definition rank (p : pc) : nat :=
   match p with PStart => 4 | PAfterCheck => 3 | PLocked => 2 | PAfterLoad => 1 | PDone _ => 0 end.
 
-(* ---------------------------------------------------------------- S: names of a tree *)
-
-Fixpoint tnames_node (dirname : bytes) (n : node) {struct n} : list (bytes * fkind) :=
-  match n with
-  | File nm k => if has_suffix nm then [(pjoin dirname (strip_suffix nm), k)] else []
-  | Dir nm ch =>
-    (fix go (ns : list node) : list (bytes * fkind) :=
-       match ns with
-       | [] => []
-       | x :: t => tnames_node (pjoin dirname nm) x ++ go t
-       end) ch
+(* the same with the files a load may still have to compile, when no tree holds more than N template files *)
+Definition rankN (N : nat) (s : st) (i : nat) : nat :=
+  match pcs s i with
+  | PStart => N + 4 | PAfterCheck => N + 3 | PLocked => 2 + (N - prog s) | PAfterLoad => 1 | PDone _ => 0
   end.
 
-Fixpoint tnames_nodes (dirname : bytes) (ns : list node) : list (bytes * fkind) :=
-  match ns with
-  | [] => []
-  | x :: t => tnames_node dirname x ++ tnames_nodes dirname t
-  end.
-
-Definition tnames (t : fstree) : list (bytes * fkind) :=
-  match t with None => [] | Some ns => tnames_nodes [] ns end.
+(* ---------------------------------------------------------------- S: what a name stands for *)
 
 Definition ok_of {A} (c : cres A) : option A := match c with COk a => Some a | _ => None end.
 
